@@ -1,1 +1,72 @@
-From Verif Require Import Values Duration.
+(* C19 - duration strings and numbers convert consistently in both directions. *)
+From Verif Require Import Values Duration DurationProofs.
+Open Scope list_scope.
+Open Scope string_scope.
+
+(* timestr() is the inverse of convert() for integers, exactly *)
+Theorem C19_timestr_inverse_int : forall n, (0 <= n < 2 ^ 53)%Z ->
+  exists s q, timestr_int n = Ok s /\ convert s = Ok q /\ (q == inject_Z n)%Q.
+Proof. exact timestr_inverse_int. Qed.
+
+(* the documented unit arithmetic for EVERY traditional string: any subset of the units in the
+   order d,h,m,s, any letter case, white space before a number, between number and unit and
+   at the end, numbers of any length *)
+Theorem C19_convert_unit_arith : forall gs tail,
+  gs <> [] -> units_ok 0 gs = true -> all_ws tail = true -> (groups_value gs < 2 ^ 53)%Z ->
+  exists q, convert (render gs tail) = Ok q /\ (q == inject_Z (groups_value gs))%Q.
+Proof. exact convert_unit_arith. Qed.
+
+Theorem C19_parse_rendered : forall gs idx acc tail f,
+  units_ok idx gs = true -> all_ws tail = true -> (List.length gs < f)%nat ->
+  parse_trad f (render gs tail) idx acc =
+  Some (acc ++ map (fun g => (unit_index g, mkint (rg_n g))) gs)%list.
+Proof. exact parse_rendered. Qed.
+
+(* the arithmetic on the recognised groups (both formats share it) *)
+Theorem C19_sum_groups_int : forall gs smallest rz,
+  Forall int_group gs -> (gs <> [] \/ smallest = false) ->
+  (0 <= rz)%Z -> (rz + gsum gs < 2 ^ 53)%Z ->
+  exists q, sum_groups gs smallest (rz # 1) = Ok q /\ (q == inject_Z (rz + gsum gs))%Q.
+Proof. exact sum_groups_int. Qed.
+
+Theorem C19_nothing_present_rejected : forall r, sum_groups [] true r = Err EValue.
+Proof. exact nothing_present_rejected. Qed.
+
+Theorem C19_fraction_in_larger_unit_rejected : forall u x fr rest r,
+  n_frac x = Some fr -> sum_groups ((u, x) :: rest) false r = Err EValue.
+Proof. exact fraction_in_larger_unit_rejected. Qed.
+
+Theorem C19_calendar_units_rejected : forall u x rest sm r,
+  (4 <= u)%nat -> n_frac x = None -> Qeq_bool (to_double (num_value x)) 0 = false ->
+  sum_groups ((u, x) :: rest) sm r = Err EValue.
+Proof. exact calendar_units_rejected. Qed.
+
+Theorem C19_time_period_spec :
+  time_period PNone = Ok None /\
+  (forall z, (z < 0)%Z -> (-(2^53) < z)%Z -> time_period (PInt z) = Ok (Some 0%Q)) /\
+  (forall q, Qle_bool 0 q = false -> time_period (PFloat q) = Ok (Some 0%Q)) /\
+  (forall q, Qle_bool 0 q = true -> time_period (PFloat q) = Ok (Some q)) /\
+  time_period POther = Err EType.
+Proof. exact time_period_spec. Qed.
+
+(* concrete malformed inputs and the rounding boundaries named in the property (by computation) *)
+Example C19_examples :
+  forallb (fun s => resq_eqb (convert s) (Err EValue))
+    [""; "  "; "P"; "PT"; "P1Y"; "P1M"; "1.5h30m"; "1h1d"; "p1d"; "1 2"; "1.5.5"; "5."; "1dd"] = true /\
+  resq_eqb (convert "1d2h3m4.5s") (Ok (93784.5)%Q) = true /\
+  resq_eqb (convert "P1DT2H3M4.5S") (Ok (93784.5)%Q) = true /\
+  resq_eqb (convert " 20H15 m 10") (Ok 72910%Q) = true /\
+  resq_eqb (convert "P0Y0M1D") (Ok 86400%Q) = true /\
+  timestr_float (59.9996)%Q 3 = Ok "1m0.000s" /\
+  timestr_approx (PyF (59.96)%Q) = Ok "1m0s" /\
+  timestr_approx (PyF (0.9996)%Q) = Ok "1.00s".
+Proof. vm_compute. repeat split; reflexivity. Qed.
+
+Print Assumptions C19_timestr_inverse_int.
+Print Assumptions C19_convert_unit_arith.
+Print Assumptions C19_parse_rendered.
+Print Assumptions C19_sum_groups_int.
+Print Assumptions C19_nothing_present_rejected.
+Print Assumptions C19_fraction_in_larger_unit_rejected.
+Print Assumptions C19_calendar_units_rejected.
+Print Assumptions C19_time_period_spec.
